@@ -22,6 +22,9 @@ type Meta struct {
 	// RootSig, when set, is the signature under which every difference found at the root directory
 	// itself is reported (labelled stream of a candidate finding about the root's attributes).
 	RootSig string
+	// SkipRootAttr leaves the ROOT directory's own attribute block and xattrs out of the oracle (db
+	// store only, known finding SigDBRootAttr; the root's listing and every other node are checked).
+	SkipRootAttr bool
 }
 
 // sig picks the failure signature for path p.
@@ -116,6 +119,13 @@ func (s *Meta) Stat(p string, modelled bool) {
 	}
 	if errno != 0 {
 		out.Fail(s.sig(p, "lookup-failed"), fmt.Sprintf("%q is in the tar but lookup/getattr gave %v [%s]", p, errno, s.Ctx))
+		return
+	}
+	if p == "" && s.SkipRootAttr {
+		// known finding SigDBRootAttr: only "the root is a directory" is checked here
+		if a.Mode&syscall.S_IFMT != syscall.S_IFDIR {
+			out.Fail("root-not-a-directory", fmt.Sprintf("getattr of the root: mode %o", a.Mode))
+		}
 		return
 	}
 	if d := CheckAttr(a, n); len(d) > 0 {
@@ -216,6 +226,9 @@ func (s *Meta) Xattr(p, name string, modelled bool) {
 		out.Emit(fmt.Sprintf("xattr %s %s", Hex(p), Hex(name)), res)
 	}
 	out.Count("xattr")
+	if p == "" && s.SkipRootAttr {
+		return
+	}
 	want, has := n.Xattrs[name]
 	if has {
 		if errno != 0 || string(v) != want {
